@@ -1,6 +1,10 @@
 #!/venv/bin/python
-"""Re-run the owning checks against every kept seeded change (scratch worktrees, removed afterwards).
-Prints one line per change; exit 1 if any change is no longer caught."""
+"""Re-run the owning checks against every kept seeded change (scratch copies, removed afterwards).
+Prints one line per change; exit 1 if any change is no longer caught.
+
+usage: recheck_seeded.py [jobs] [--only=name1,name2] [--update]
+  --update  re-runs the check of the property the change was written against (plus those recorded as catching it) and
+            rewrites checks_run / caught_by in the change's meta.json (used after a check was strengthened)."""
 import concurrent.futures as cf
 import glob
 import json
@@ -14,10 +18,15 @@ VERIF = os.path.dirname(os.path.dirname(os.path.abspath(__file__)))
 REPO = "/repo"
 
 
+UPDATE = "--update" in sys.argv
+
+
 def one(d):
     name = os.path.basename(d.rstrip("/"))
     meta = json.load(open(os.path.join(d, "meta.json")))
     props = meta.get("caught_by") or [meta["property"]]
+    if UPDATE:
+        props = sorted(set(props) | {meta["property"]})
     wt = tempfile.mkdtemp(prefix="rs-", dir="/var/tmp")
     try:
         shutil.copytree(os.path.join(REPO, "qucumber"), os.path.join(wt, "qucumber"), ignore=shutil.ignore_patterns("__pycache__"))
@@ -31,6 +40,13 @@ def one(d):
             env = dict(os.environ, QUCUMBER_REPO=wt, VERIF_EVIDENCE_DIR=os.path.join(wt, "_ev"), VERIF_REPLAY_DIR=os.path.join(wt, "_rp"))
             c = subprocess.run([os.path.join(VERIF, "check"), p, "--tier", "quick"], env=env, capture_output=True, text=True)
             res[p] = c.returncode
+            if UPDATE:
+                kinds = [l.strip() for l in c.stdout.splitlines() if "violation observations" in l]
+                first = [l.strip() for l in c.stdout.splitlines() if l.startswith("  ")][:2]
+                meta.setdefault("checks_run", {})[p] = {"rc": c.returncode, "tier": "quick", "kinds": kinds[:1], "first": [f[:300] for f in first]}
+        if UPDATE:
+            meta["caught_by"] = [p for p, v in meta["checks_run"].items() if v["rc"] == 1]
+            json.dump(meta, open(os.path.join(d, "meta.json"), "w"), indent=1)
         return name, ("CAUGHT" if any(v == 1 for v in res.values()) else "MISSED"), res
     finally:
         shutil.rmtree(wt, ignore_errors=True)
@@ -38,8 +54,12 @@ def one(d):
 
 def main():
     dirs = sorted(glob.glob(os.path.join(VERIF, "seeded", "*/")))
+    only = [a.split("=", 1)[1].split(",") for a in sys.argv[1:] if a.startswith("--only=")]
+    if only:
+        dirs = [d for d in dirs if os.path.basename(d.rstrip("/")) in only[0]]
     bad = []
-    with cf.ThreadPoolExecutor(int(sys.argv[1]) if len(sys.argv) > 1 else 3) as ex:
+    jobs = [a for a in sys.argv[1:] if a.isdigit()]
+    with cf.ThreadPoolExecutor(int(jobs[0]) if jobs else 3) as ex:
         for name, verdict, res in ex.map(one, dirs):
             print(name, verdict, res, flush=True)
             if verdict != "CAUGHT":
